@@ -113,6 +113,28 @@ var c02PriorFrame = ref.Spec{ID: 0x0801, Version2019: true, VersionByte: 1, Frag
 	PhoneBCD: []byte{0x7e, 0x7d, 0x13, 0x80, 0x01, 0x38, 0x00, 0x7d, 0x7e, 0x11},
 	Body:     []byte{0x7e, 0x7d, 0x01, 0x02, 0x7d, 0x7d, 0x7e, 0x7e, 0xa5, 0x5a, 0x7e, 0x33, 0x7d, 0x44, 0x55, 0x66, 0x77, 0x88, 0x99, 0xaa, 0xbb, 0xcc, 0xdd, 0xee, 0xff, 0x12, 0x34, 0x56}}.Build()
 
+// c02Cousins builds valid frames whose phone differs from f's only in its leading bytes or in the layout that carries it.
+func c02Cousins(f *ref.Frame) [][]byte {
+	var phones [][]byte
+	p := f.PhoneBCD
+	lead := []byte{0x12, 0x34}
+	if len(p) >= 2 && p[0] == 0x12 {
+		lead = []byte{0x56, 0x78}
+	}
+	switch len(p) {
+	case 10:
+		phones = append(phones, append(append([]byte{}, lead...), p[2:]...), append([]byte{}, p[4:]...), append([]byte{}, p[:6]...))
+	case 6:
+		phones = append(phones, append(append([]byte{}, p...), 0, 0, 0, 0), append([]byte{0, 0, 0, 0}, p...), append(append([]byte{}, lead...), append([]byte{0, 0}, p...)...),
+			append(append([]byte{}, lead...), p[2:]...))
+	}
+	var out [][]byte
+	for _, ph := range phones {
+		out = append(out, ref.Spec{ID: f.ID, Version2019: len(ph) == 10, VersionByte: 1, PhoneBCD: ph, Serial: f.Serial}.Build())
+	}
+	return out
+}
+
 func checkC02(c c02Case, _ *kit.Collector) kit.Result {
 	return checkC02Frame(c.Frame, c.Origin)
 }
@@ -121,9 +143,17 @@ func checkC02Frame(frame []byte, origin string) kit.Result {
 	res := kit.Result{}
 	in := make([]byte, len(frame)) // exact capacity
 	copy(in, frame)
+	f, why := ref.Validate(frame)
+	if why == "" {
+		// the process has seen "cousin" frames before: same ID and serial, a phone that shares most of its bytes with
+		// this frame's phone, in the same and in the other header layout. What Decode says about this frame must not
+		// depend on them (caches keyed too narrowly, state kept between calls).
+		for _, cousin := range c02Cousins(f) {
+			_ = jt808.NewJTMessage().Decode(cousin)
+		}
+	}
 	msg := jt808.NewJTMessage()
 	err := msg.Decode(in)
-	f, why := ref.Validate(frame)
 	verdict := "reject_" + why
 	if why == "" {
 		verdict = "accept"
